@@ -625,28 +625,32 @@ func main() {
 
 	per := mon.N(80, 8000)
 	total := per * len(oracle.AggFunctions)
-	only := -1
+	// replay: the witness of a violation is the complete history; run exactly that
+	var replayH *History
 	if p := os.Getenv("VERIF_REPLAY"); p != "" {
 		var rp struct {
-			Replay struct {
-				Index int `json:"index"`
-			} `json:"replay"`
+			Replay *History `json:"replay"`
 		}
-		if b, err := os.ReadFile(p); err == nil && json.Unmarshal(b, &rp) == nil {
-			only = rp.Replay.Index
+		b, err := os.ReadFile(p)
+		if err != nil || json.Unmarshal(b, &rp) != nil || rp.Replay == nil || len(rp.Replay.Evs) == 0 {
+			panic("C10: cannot read a history from replay file " + p)
 		}
+		replayH = rp.Replay
+		total = 1
 	}
 	var st stats
 	ran := 0
 	for idx := 0; idx < total; idx++ {
-		if only >= 0 && idx != only {
-			continue
-		}
-		if only < 0 && !mon.Mine(idx) {
+		if replayH == nil && !mon.Mine(idx) {
 			continue
 		}
 		fun := oracle.AggFunctions[idx%len(oracle.AggFunctions)]
-		h := gen(mon.Seed(), idx, fun)
+		var h History
+		if replayH != nil {
+			h, fun = *replayH, replayH.Rule.Fun
+		} else {
+			h = gen(mon.Seed(), idx, fun)
+		}
 		res.LogCase("history %d fun=%s interval=%d wait=%d shape=%d cache=%v inBuf=%d events=%d", idx, fun, h.Rule.Interval, h.Rule.Wait, h.Rule.Shape, h.Rule.Cache, h.Rule.InBuf, len(h.Evs))
 		before := st
 		done := make(chan struct{})
@@ -683,7 +687,7 @@ func main() {
 	res.Count("lines_emitted", st.lines)
 	res.Count("buckets_emitted", st.buckets)
 	res.Count("subset_evaluations", st.subsets)
-	if only < 0 {
+	if replayH == nil {
 		res.Floor("histories", ran, total)
 		res.Floor("buckets_emitted", st.buckets, total*3)
 		res.Floor("points_closed", st.closed, total)
